@@ -66,6 +66,12 @@ def previous_locales_flag_rule(ctx, chk, rule):
         i = names.index("try_previous_locales") - (len(names) - len(a.defaults))
         if 0 <= i < len(a.defaults):
             dflt = a.defaults[i]
+    if "use_given_order" in names:
+        j = names.index("use_given_order") - (len(names) - len(a.defaults))
+        d2 = a.defaults[j] if 0 <= j < len(a.defaults) else None
+        chk.ob(rule, "DateDataParser(use_given_order=...) defaults to off (languages are tried in the library's priority order unless asked)",
+               isinstance(d2, ast.Constant) and not d2.value, "default is %s" % (ast.unparse(d2) if d2 is not None else None),
+               key={"function": init.key, "construct": "use_given_order default"}, file=init.file, function=init.qual, line=init.node.lineno)
     chk.ob(rule, "DateDataParser(try_previous_locales=...) defaults to off", isinstance(dflt, ast.Constant) and not dflt.value,
            "default is %s" % (ast.unparse(dflt) if dflt is not None else None),
            key={"function": init.key, "construct": "try_previous_locales default"}, file=init.file, function=init.qual, line=init.node.lineno)
